@@ -268,6 +268,24 @@ def verbatim_store_rule(prog, ctx, rule, fname, field, pindex, what):
         for x, at in srcs:
             if x.k == "CallExpr" and x.j.get("callee") == "strdup" and x.call_args() and stands_for_param(x.call_args()[0], at):
                 continue
+            if x.k == "CallExpr" and x.j.get("callee") in ("malloc", "calloc") and r0.k == "DeclRefExpr":
+                # copy = malloc(len + 1); memcpy(copy, text, len);  with len = strlen(text): the whole text, written out by hand
+                def is_len_of_param(e, at9, depth=0):
+                    e0 = e.strip()
+                    if e0.k == "CallExpr" and e0.j.get("callee") == "strlen" and e0.call_args():
+                        return stands_for_param(e0.call_args()[0], at9)
+                    if e0.k == "DeclRefExpr" and e0.j.get("dk") in ("local", "param") and depth < 4:
+                        ds9 = rd.reaching(e0.j["name"], at9)
+                        return bool(ds9) and all(d9.rhs is not None and d9.node is not None and is_len_of_param(d9.rhs, d9.node, depth + 1) for d9 in ds9)
+                    return False
+                whole = False
+                for c9 in f.calls(("memcpy", "strcpy", "stpcpy")):
+                    a9 = c9.call_args()
+                    if len(a9) >= 2 and render(a9[0]) == r0.j["name"] and stands_for_param(a9[1], c9):
+                        if c9.j["callee"] != "memcpy" or (len(a9) == 3 and is_len_of_param(a9[2], c9)):
+                            whole = True
+                if whole:
+                    continue
             if x.k == "CallExpr" and x.j.get("callee") in ("strndup", "strdup", "memcpy", "strncpy", "mempcpy"):
                 verdict, why = "fail", render(x)[:60]
                 break
